@@ -411,13 +411,25 @@ def _make_fields_iterator(
         public_attribs = [
             f.name for f in dataclasses.fields(tp) if not f.name.startswith("_")
         ]
-    # Otherwise, try using the public type-hints.
+    # Otherwise, try using the public type-hints (a `ClassVar` is not an instance field).
     else:
-        attribs = inspection.get_type_hints(tp)
-        public_attribs = [k for k in attribs if not k.startswith("_")]
-    # If that didn't work, look for `__slots__`.
+        # (Only what the class annotates: the parameters of its constructor need
+        #   not be attributes of its instances - `vars()` below knows better.)
+        attribs = inspection.get_type_hints(tp, exhaustive=False)
+        public_attribs = [
+            k
+            for k, hint in attribs.items()
+            if not k.startswith("_") and not inspection.isclassvartype(hint)
+        ]
+    # If that didn't work, look for `__slots__` - every class in the hierarchy
+    #   declares its own, and a single slot may be spelled as a plain string.
     if not public_attribs and hasattr(tp, "__slots__"):
-        public_attribs = [s for s in tp.__slots__ if not s.startswith("_")]
+        public_attribs = [
+            s
+            for c in reversed(tp.__mro__)
+            for s in _slotnames(c)
+            if not s.startswith("_")
+        ]
     # If we located all public attributes, create a factory function for iterating over
     #   these fields and fetching the value from an instance.
     if public_attribs:
@@ -432,6 +444,11 @@ def _make_fields_iterator(
         return ((k, v) for k, v in vars(val).items() if not k.startswith("_"))
 
     return _itervars
+
+
+def _slotnames(c: type) -> tuple[str, ...]:
+    slots = c.__dict__.get("__slots__", ())
+    return (slots,) if isinstance(slots, str) else (*slots,)
 
 
 def load(val: _T) -> PythonValueT | _T:
